@@ -63,7 +63,7 @@ Qed.
 Lemma it_next_ag : forall i m ctx its s r its' s1,
   it_next spn run m i ctx its s = (r, its', s1) -> ians r -> it_next spn run' m i ctx its s = (r, its', s1).
 Proof.
-  induction i as [a lo hi|a sep lo hi lead trail|j IHj|f j IHj|f j IHj|a|a lo hi ck|a];
+  induction i as [a lo hi|a sep lo hi lead trail|j IHj|f j IHj|f j IHj|a|a lo hi ck|a|i1 IHi1 i2 IHi2];
     intros m ctx its s r its' s1 H Hr; cbn [it_next] in *.
   - destruct its; try exact H.
     destruct (rep_next run m a lo hi ctx n s) as [[r0 c'] s2] eqn:E. injection H as <- <- <-.
@@ -86,7 +86,15 @@ Proof.
     + destruct (rep_next run m a lo0 hi0 ctx n s) as [[r0 c'] s2] eqn:E. injection H as <- <- <-.
       now rewrite (rep_next_ag _ _ _ _ _ _ _ _ _ _ E Hr).
     + use_run H Hr; auto.
-  - destruct its as [| | | | |[l|]]; try exact H. use_run H Hr; auto.
+  - destruct its as [| | | | |[l|]|]; try exact H. use_run H Hr; auto.
+  - destruct its as [| | | | | |sa [sb|]]; try exact H.
+    + destruct (it_next spn run m i2 ctx sb s) as [[r0 sb'] s2] eqn:E. injection H as <- <- <-.
+      now rewrite (IHi2 _ _ _ _ _ _ _ E Hr).
+    + destruct (it_next spn run m i1 ctx sa s) as [[r0 sa'] s2] eqn:E.
+      assert (Hr0 : ians r0) by (destruct r0; try exact I; injection H as <- <- <-; exact Hr).
+      rewrite (IHi1 _ _ _ _ _ _ _ E Hr0). destruct r0; try exact H.
+      destruct (it_next spn run m i2 ctx (mk_iter i2 ctx) s2) as [[r1 sb'] s3] eqn:E2. injection H as <- <- <-.
+      now rewrite (IHi2 _ _ _ _ _ _ _ E2 Hr).
 Qed.
 
 Lemma drive_ag : forall fuel m i ctx its lim pa idx acc s r acc' fl s1,
@@ -257,7 +265,7 @@ Proof.
                   | destruct gs; [exact H | eapply choicevec_loop_ag; eauto] ]).
   all: try (solve [repeat (first [use_go IH H Hr | use_drive IH H Hr]); try exact H; auto]).
   - (* RepUnit *)
-    destruct i as [a [|lo] [hi|]| | | | | | |]; try (solve [repeat (use_drive IH H Hr); try exact H]).
+    destruct i as [a [|lo] [hi|]| | | | | | | |]; try (solve [repeat (use_drive IH H Hr); try exact H]).
     eapply rep_fast_ag; eauto.
   - (* CollectExactly *)
     destruct n0; [destruct (it_eager i ctx); [apply IH; assumption|]|];
